@@ -45,6 +45,9 @@ type Stmt struct {
 
 type Tx struct {
 	Stmts []Stmt
+	// Raw, if set, is the whole transaction source (hand-written corpus transactions whose shape
+	// the statement list cannot express, e.g. transaction fields); Stmts then only carry the commands
+	Raw string
 }
 
 func (t *Tx) Cmds() []Cmd {
@@ -56,6 +59,9 @@ func (t *Tx) Cmds() []Cmd {
 }
 
 func (t *Tx) Source() string {
+	if t.Raw != "" {
+		return t.Raw
+	}
 	var b strings.Builder
 	b.WriteString("import C from 0x1\ntransaction {\n  prepare(acct: auth(Storage) &Account) {\n")
 	for _, s := range t.Stmts {
@@ -107,7 +113,7 @@ type Gen struct {
 }
 
 func NewGen(rng *lib.Rng, w Weights, next int64) *Gen {
-	return &Gen{rng: rng, w: w, p: &PState{Next: next}}
+	return &Gen{rng: rng, w: w, p: InitPState(next)}
 }
 
 func (g *Gen) fresh() int64 { g.name++; return g.name }
@@ -188,6 +194,7 @@ type baseSel struct {
 	b    Base
 	expr string // Cadence expression of the receiver
 	ref  bool
+	con  bool  // the contract: operations are contract functions; from outside, its resource fields read as references
 	res  *Rsrc // what it designates now (nil if the reference is dead etc.)
 }
 
@@ -199,6 +206,9 @@ func (g *Gen) pickBase() *baseSel {
 				c = append(c, &baseSel{b: Base{X: v.idx}, expr: vname(v.idx), res: g.st.Var(v.idx)})
 			}
 		}
+		// the contract owns resources too (twice: it is always there, variables come and go)
+		con := &baseSel{b: Base{Sto: true, X: ContractPath}, expr: "C", ref: true, con: true, res: g.st.Stored(ContractPath)}
+		c = append(c, con, con)
 	}
 	for _, r := range g.refs {
 		if r.opt {
@@ -408,18 +418,23 @@ func (g *Gen) build(kind string) *Stmt {
 		return &Stmt{Kind: kind, Src: src, Cmds: []Cmd{xfer(pchild(b.b, slot), splace(pvar(s.idx), req))}}
 	case "dictForce":
 		b := g.pickBase()
-		if b == nil || b.ref {
+		if b == nil || (b.ref && !b.con) {
 			return nil
 		}
 		k := g.dictKey(b.res, g.want == EForceAssign)
 		if b.res != nil && (b.res.peek(Slot{Kind: SlDict, K: k}) != nil) != (g.want == EForceAssign) {
 			return nil
 		}
-		s := g.pickVar(func(v *varInfo) bool { return v.idx != b.b.X })
+		s := g.pickVar(func(v *varInfo) bool { return b.con || v.idx != b.b.X })
 		if s == nil {
 			return nil
 		}
 		g.kill(s)
+		if b.con {
+			return &Stmt{Kind: kind + ":contract",
+				Src:  fmt.Sprintf("C.dictForce(%q, <-%s)", DictKey(k), vname(s.idx)),
+				Cmds: []Cmd{xfer(pchild(b.b, Slot{Kind: SlDict, K: k}), splace(pvar(s.idx), false))}}
+		}
 		return &Stmt{Kind: kind,
 			Src:  fmt.Sprintf("%s.dict[%q] <-! %s", b.expr, DictKey(k), vname(s.idx)),
 			Cmds: []Cmd{xfer(pchild(b.b, Slot{Kind: SlDict, K: k}), splace(pvar(s.idx), false))}}
@@ -537,7 +552,7 @@ func (g *Gen) build(kind string) *Stmt {
 	// ---- the known defect: swap statement on an index expression of a resource-typed field
 	case "swapIdxArr", "swapIdxDict":
 		b := g.pickBase()
-		if b == nil || b.res == nil {
+		if b == nil || b.res == nil || b.con {
 			return nil
 		}
 		if kind == "swapIdxArr" {
@@ -582,7 +597,7 @@ func (g *Gen) build(kind string) *Stmt {
 
 	case "setTag":
 		b := g.pickBase()
-		if b == nil {
+		if b == nil || b.con {
 			return nil
 		}
 		t := g.newTag()
@@ -1117,6 +1132,12 @@ func (g *Gen) genTx(nStmts int, last bool) *Tx {
 		}
 		tx.Stmts = append(tx.Stmts, *s)
 		g.h.Kinds[s.Kind]++
+		for _, c := range s.Cmds {
+			if (c.D.Kind == PChild && c.D.B.Sto) || (c.S.Kind == SPlace && c.S.Pl.Kind == PChild && c.S.Pl.B.Sto) || c.B.Sto {
+				g.h.Kinds["(statements on contract-owned fields)"]++
+				break
+			}
+		}
 		if s.SwapIdx {
 			g.h.SwapIdx = true
 		}
